@@ -23,10 +23,6 @@ KEY_D22 = "boot-failure-during-halt"
 # running one case on the real arbiter
 # ---------------------------------------------------------------------------------------------------
 
-class Run:
-    pass
-
-
 def run_case(cfg, script, tail_loops=None):
     w = L.World(workers=cfg["workers"], timeout=cfg["timeout"], graceful=cfg["graceful_timeout"], rand=cfg.get("rand", 0.0))
     if tail_loops is None:
@@ -48,14 +44,23 @@ def run_case(cfg, script, tail_loops=None):
         return orig_fork(master)
     w.k_kill = k_kill
     w.k_fork = k_fork
+    w.oracle_notes = []
+    st = {"num": None, "loads": 0}
+
+    def probe(world, code):
+        a = world.arbiter
+        num = int(a.num_workers)
+        loads = sum(1 for e in world.events if e[0] == "load_config")
+        if st["num"] is not None and num == 0 and st["num"] == 1 and loads == st["loads"]:
+            world.oracle_notes.append("the target went from 1 to 0 workers without a reload (TTOU must not go below 1)")
+        st["num"], st["loads"] = num, loads
+        if code == L.Y_SLEEP and world.stopping_at is None:
+            n = dict.__len__(a.WORKERS)
+            if n > num:
+                world.oracle_notes.append("spawn_workers registered worker number %d although the target is %d" % (n, num))
+    w.probe = probe
     w.run(script, policy=L.make_settle(tail_loops))
-    if w.closed_listeners:
-        pass
     return w
-
-
-def mark_stop(w):
-    """index (in w.reaps) at which stop() was first entered is not needed; stop is recognised by close_sockets."""
 
 
 def judge(cfg, w):
@@ -84,9 +89,14 @@ def judge(cfg, w):
             told.add(pid)
         if sig in (SIG["TERM"], SIG["QUIT"], SIG["KILL"], SIG["ABRT"]):
             told.add(pid)
+    for note in sorted(set(w.oracle_notes)):
+        fails.append((note, None))
     if ages != sorted(ages) or len(set(ages)) != len(ages):
         fails.append(("worker ages not strictly increasing in WORKERS: %r" % (ages,), None))
-    if out == "done":
+    if out == "done" and boot_reaped:
+        fails.append(("a worker exited with boot-failure code %d and was reaped, but the master keeps serving (respawn loop)" %
+                      (boot_reaped[0][1] >> 8), None))
+    elif out == "done":
         # still serving after the fair tail: converged?
         phantoms = [p for p in wp if p not in st["running"] and p not in st["zombies"]]
         problems = []
@@ -101,14 +111,17 @@ def judge(cfg, w):
         if problems:
             key = None
             # D17 signature: every discrepancy is a tracked pid that was reaped before it was registered, timeout = 0
-            if w.arbiter.timeout == 0 and phantoms and all(p in reaped for p in phantoms) \
+            if w.arbiter.timeout == 0 and phantoms and all(L.reaped_before_registration(w, p) for p in phantoms) \
                     and sorted(p for p in wp if p not in phantoms) == sorted(st["running"]) and not st["zombies"] and not st["queue"]:
                 key = KEY_D17
             fails.append(("after events stopped the pool did not converge: " + "; ".join(problems), key))
     elif out == "exit":
         status = w.outcome[1]
-        if boot_reaped:
-            want = boot_reaped[0][1] >> 8
+        # a boot failure reaped before the master began to stop decides the exit status; one reaped during a
+        # shutdown that was already under way does not
+        first = [(p, s) for p, s in boot_reaped if w.final_stop_at is None or w.reap_at.get(p, 0) <= w.final_stop_at]
+        if first:
+            want = first[0][1] >> 8
             if status != want:
                 fails.append(("a worker exited with boot-failure code %d but the master exited with status %r" % (want, status), None))
         elif status != 0:
@@ -116,7 +129,8 @@ def judge(cfg, w):
         if w.forks_after_stop:
             fails.append(("%d fork(s) after the master began to halt" % w.forks_after_stop, None))
     elif out == "crash":
-        key = KEY_D22 if len(boot_reaped) >= 2 else None
+        key = KEY_D22 if (boot_reaped and w.final_stop_at is not None
+                          and w.reap_at.get(boot_reaped[-1][0], -1) >= w.final_stop_at) else None
         fails.append(("HaltServer escaped from Arbiter.run() (exit status 1 with a traceback, pid file kept): %s; boot failures reaped: %r"
                       % (w.outcome[1], boot_reaped), key))
     else:
@@ -127,6 +141,9 @@ def judge(cfg, w):
 # ---------------------------------------------------------------------------------------------------
 # generators
 # ---------------------------------------------------------------------------------------------------
+# Proof/ArbiterRefute.v: d17_schedule, d22_schedule
+WITNESS_D17 = [("M",)] * 3 + [("X", 100, 0), ("C",)] + [("M",)] * 6
+WITNESS_D22 = [("M",)] * 9 + [("X", 100, 768), ("X", 101, 768), ("C",), ("M",), ("C",)]
 
 def cfg_of(workers, timeout, graceful=1, rand=0.0):
     return {"workers": workers, "timeout": timeout, "graceful_timeout": graceful, "rand": rand}
@@ -162,6 +179,9 @@ def fixed_cases():
     cases.append((cfg_of(2, 0), [("M",)] * 12 + [("E", 4, 0), ("S", SIG["HUP"])] + [("M",)] * 30, "reload"))
     cases.append((cfg_of(3, 2), [("M",)] * 14 + [("E", 1, 1), ("S", SIG["HUP"])] + [("M",)] * 30, "reload"))
     cases.append((cfg_of(0, 2), [("M",)] * 5 + [("S", SIG["TTIN"])] + [("M",)] * 10, "zero-workers"))
+    # the witnesses of the _refuted theorems of Props/C03.v, replayed on the implementation
+    cases.append((cfg_of(2, 0, graceful=30), WITNESS_D17, "witness-D17"))
+    cases.append((cfg_of(2, 30, graceful=30), WITNESS_D22, "witness-D22"))
     return cases
 
 
@@ -197,7 +217,6 @@ def gen_random(rng, maxev):
 def exhaustive_cases(depth):
     """thorough: every sequence over a small alphabet, one event per master step position class"""
     import itertools
-    alpha = [("M",), ("M",), ("C",), ("Xk", 0, 0), ("Xk", 1, 768), ("S", SIG["TTIN"]), ("S", SIG["TTOU"]), ("S", SIG["HUP"])]
     alpha = [("MM",), ("C",), ("Xk", 0, 0), ("Xk", 1, 768), ("S", SIG["TTIN"]), ("S", SIG["TTOU"]), ("S", SIG["HUP"])]
     for seq in itertools.product(alpha, repeat=depth):
         s = []
@@ -245,6 +264,8 @@ def run(ctx):
         fs = judge(cfg, w)
         if fs:
             failures.append((cfg, script, fs))
+        if tag.startswith("witness-"):
+            ctx.extra.setdefault("refutation_witnesses_replayed", {})[tag] = [t for t, _ in fs] or ["no longer fails on this tree"]
         if tag == "random" and env_events >= 3:
             ctx.sample(describe(cfg, script[:40]))
     ctx.cov["rule"] = ("schedules for the real Arbiter.run() on the simulated kernel: fixed corpus (a child death + SIGCHLD at every yield "
@@ -263,6 +284,8 @@ def run(ctx):
         ctx.log("CORRESPONDENCE: %d schedules differ" % len(bad))
     if (bad or bad is None or not ok) and not ctx.violations:
         search(ctx, [corr[i][2] for i, _, _ in (bad or [])[:40]])
+    if not ctx.quick():
+        real_processes(ctx)
 
 
 def report(ctx, failures):
@@ -324,7 +347,67 @@ def search(ctx, seeds):
     report(ctx, fails)
 
 
+def real_processes(ctx):
+    """thorough tier, supporting exploration: a real master under kill -9 / TTIN / TTOU / HUP and with an application
+    that cannot boot; the process table is compared with the target after every event."""
+    import signal as sg
+    import time
+    import lib_realproc as R
+    notes = []
+    for cls in ("sync", "gthread"):
+        srv = R.Server(workers=3, worker_class=cls, timeout=30)
+        try:
+            ok = srv.wait_workers(3, 15)
+            steps = [("start", 3, ok)]
+            live, _ = srv.workers()
+            if live:
+                import os
+                os.kill(live[0], sg.SIGKILL)
+                t = srv.wait_for(lambda: len(srv.workers()[0]) == 3 and live[0] not in srv.workers()[0] and not srv.workers()[1], 10)
+                steps.append(("kill -9 one worker", 3, t))
+            srv.signal(sg.SIGTTIN)
+            steps.append(("TTIN", 4, srv.wait_workers(4, 10)))
+            srv.signal(sg.SIGTTOU)
+            time.sleep(0.3)
+            srv.signal(sg.SIGTTOU)
+            steps.append(("TTOU x2", 2, srv.wait_workers(2, 15)))
+            before = set(srv.workers()[0])
+            srv.signal(sg.SIGHUP)
+            # a reload re-reads the configuration: the target is again the configured 3
+            t = srv.wait_for(lambda: len(srv.workers()[0]) == 3 and not (set(srv.workers()[0]) & before) and not srv.workers()[1], 20)
+            steps.append(("HUP (all workers replaced, target back to the configured 3)", 3, t))
+            for what, want, t in steps:
+                ctx.hist("real_process_step", "%s:%s" % (what, "ok" if t is not None else "FAILED"))
+                if t is None:
+                    notes.append("%s worker class: after %s the process table did not reach %d live workers (now %r)" % (cls, what, want, srv.workers()))
+        finally:
+            rc = srv.stop()
+    # an application that cannot boot: one worker -> exit status 3; four workers -> D22 (status 1, pid file kept)
+    for nw in (1, 4):
+        srv = R.Server(workers=nw, app="bootfail:app", graceful=3)
+        try:
+            srv.wait_for(lambda: srv.proc.poll() is not None, 25)
+            rc = srv.proc.poll()
+            pidfile_left = __import__("os").path.exists(srv.pidfile)
+            ctx.hist("real_boot_failure", "workers=%d exit=%r pidfile_left=%s" % (nw, rc, pidfile_left))
+            if rc is None:
+                notes.append("boot failure with %d worker(s): the master did not exit" % nw)
+            elif rc != 3:
+                if nw > 1 and rc == 1 and ctx.known.has(ctx.prop, KEY_D22):
+                    ctx.violation("real processes: %d workers fail to boot: master exit status %r, pid file left: %s" % (nw, rc, pidfile_left), {}, key=KEY_D22)
+                else:
+                    notes.append("boot failure with %d worker(s): master exit status %r instead of 3 (pid file left: %s)" % (nw, rc, pidfile_left))
+        finally:
+            srv.stop()
+    ctx.extra["real_process_notes"] = notes
+    for n in notes:
+        ctx.violation("real processes (supporting exploration): " + n, {"kind": "real-process", "note": n})
+
+
 def replay(rep):
+    if rep.get("kind") == "real-process":
+        print("real-process observation (not replayable in-process):", rep.get("note"))
+        return 1
     cfg = rep["cfg"]
     script = [tuple(x) for x in rep["schedule"]]
     w = run_case(cfg, script)
